@@ -26,7 +26,7 @@ func init() { core.Register(c14{}) }
 func (c14) ID() string    { return "C14" }
 func (c14) Level() string { return "exploration" }
 func (c14) Rule() string {
-	return "seeded starts with 0..40 (in a twelfth of the cases 50..89) closer components (plain, lazy, runner+closer, with dependencies) among other components; a seeded subset returns errors (all subsets for <= 4 closers across the case list), a seeded subset returns instantly, the rest block on a gate inside their own Close method: a controller releases them in a seeded order only once every gated closer has begun; if the number of closers that have begun does not move during 2 million scheduler yields and 3 s, the closers are declared stalled (slow closers prevented the others from being invoked) and everything is released. Oracle, sampled immediately after App.Close returns from the shared event log: every closer has exactly one close-begin and exactly one close-end event; afterwards (all gates released) still exactly one each. The same workload is repeated on a -race build; any race report with a go-kid/ioc frame is a violation. non-trivial = >= 2 gated closers with at least one failing or instant one; distinct = closer multiset + observed finishing order; closers that wire the application itself (names on both sides of it) and closers that are lazy post-processors take part; all workers run with the repository's own logger; typed-nil closer errors; every third case calls App.Close a second time; App.Close after a failed runner; race build: every second case without gates; closers exposed through decorators (a post-processor wraps each after its initialisation or as early reference); a Close before the start in every seventh case; a destruction-aware post-processor uninterested in the closers; topLevel family (application started through the package-level ioc.Run with its own registry, closers announced through ioc.Register and passed directly); a decorator-style closer embedding the closer interface; applications with 50..89 closers; the exported by-type resolver registered next to the default one"
+	return "seeded starts with 0..40 (in a twelfth of the cases 50..89) closer components (plain, lazy, runner+closer, with dependencies) among other components; a seeded subset returns errors (all subsets for <= 4 closers across the case list), a seeded subset returns instantly, the rest block on a gate inside their own Close method: a controller releases them in a seeded order only once every gated closer has begun; if the number of closers that have begun does not move during 2 million scheduler yields and 3 s, the closers are declared stalled (slow closers prevented the others from being invoked) and everything is released. Oracle, sampled immediately after App.Close returns from the shared event log: every closer has exactly one close-begin and exactly one close-end event; afterwards (all gates released) still exactly one each. The same workload is repeated on a -race build; any race report with a go-kid/ioc frame is a violation. non-trivial = >= 2 gated closers with at least one failing or instant one; distinct = closer multiset + observed finishing order; closers that wire the application itself (names on both sides of it) and closers that are lazy post-processors take part; all workers run with the repository's own logger; typed-nil closer errors; every third case calls App.Close a second time; App.Close after a failed runner; race build: every second case without gates; closers exposed through decorators (a post-processor wraps each after its initialisation or as early reference); a Close before the start in every seventh case; a destruction-aware post-processor uninterested in the closers; topLevel family (application started through the package-level ioc.Run with its own registry, closers announced through ioc.Register and passed directly); a decorator-style closer embedding the closer interface; applications with 50..89 closers; the exported by-type resolver registered next to the default one; ownConfigure family (an application-supplied configure with a Close of its own that is a component as well)"
 }
 func (c14) Assumptions() []string {
 	return []string{"gates live inside harness-supplied Close methods (caller code), so no failpoint in the repository is needed to overlap the concurrent Close calls"}
